@@ -25,6 +25,7 @@ type waitCase struct {
 	waiters    int
 	outcome    int           // holder's completion outcome
 	lateBy     time.Duration // the holder sleeps this long before completing (0 = races with the waiters)
+	cofire     bool          // wake-ups of one instant are concurrent: a release due at the instant of a poll timeout races the waiter's re-registration
 	prop       string
 	holders2   bool // both holders complete (limit 2)
 	noTimer    bool // queue kinds: MaxBacklogTimeout < 0, the waiter selects on a nil timer channel
@@ -165,8 +166,8 @@ func waitScenario(cs waitCase) *mc.Scenario {
 	name := fmt.Sprintf("%s/wake/%s", cs.prop, cs.kind)
 	return &mc.Scenario{
 		Name:   name,
-		Params: fmt.Sprintf("limit=%d waiters=%d holder-outcome=%s late=%v both-holders=%v no-backlog-timeout=%v first-waiter-abandons=%v eager-clock=%v cancel-races-release=%v", cs.limit, cs.waiters, outcomeNames[cs.outcome], cs.lateBy, cs.holders2, cs.noTimer, cs.abandon, cs.eager, cs.cancelRace),
-		Cfg:    vrt.Config{Events: true, MaxSteps: 4000, EagerClock: cs.eager, Horizon: int64(10 * time.Second)},
+		Params: fmt.Sprintf("limit=%d waiters=%d holder-outcome=%s late=%v both-holders=%v no-backlog-timeout=%v first-waiter-abandons=%v eager-clock=%v cancel-races-release=%v", cs.limit, cs.waiters, outcomeNames[cs.outcome], cs.lateBy, cs.holders2, cs.noTimer, cs.abandon, cs.eager, cs.cancelRace) + map[bool]string{true: " concurrent-instants", false: ""}[cs.cofire],
+		Cfg:    vrt.Config{Events: true, MaxSteps: 4000, EagerClock: cs.eager, Horizon: int64(10 * time.Second), CoFire: cs.cofire},
 		Body: func(x *mc.Exec) {
 			so := stackOpts{}
 			if cs.noTimer {
@@ -341,4 +342,9 @@ func runC10(c *Ctx) {
 	c.ExploreBig(waitScenario(waitCase{prop: "C10", kind: "blocking50", limit: 1, waiters: 2, outcome: 0, lateBy: 60 * time.Millisecond}),
 		mc.Options{PreemptBound: c.Pick(1, 2), DevBound: 0})
 	c.Explore(waitScenario(waitCase{prop: "C10", kind: "queue-fifo", limit: 1, waiters: 2, outcome: 0, lateBy: 60 * time.Millisecond}), opt)
+	// the release falls on the very instant of the waiter's poll timeout: it races the waiter's trip
+	// round the loop (timer wake-up, retry, re-registration)
+	for outcome := 0; outcome < 3; outcome++ {
+		c.Explore(waitScenario(waitCase{prop: "C10", kind: "blocking50", limit: 1, waiters: 1, outcome: outcome, lateBy: 50 * time.Millisecond, cofire: true}), opt)
+	}
 }
